@@ -2,7 +2,7 @@
    runner and by the generated in-Coq case files. *)
 From Coq Require Import ZArith List Bool.
 From Gabi Require Import Val ModArith Bytes Der Sha256 HashTool GoSem ParamsDef ZkProof Keys RangeProof NonRev Core CL Prover RangeSound Revocation NonRevProver Keyshare MathUtil Codec FilePerm KeyDoc.
-From Gabi Require Cache Concurrency KeyGen.
+From Gabi Require Cache Concurrency KeyGen KeyProofWire.
 Import ListNotations.
 Open Scope Z_scope.
 
@@ -465,6 +465,15 @@ Definition d_derive (v : val) : val := ret (
 Definition dispatch (fn : Z) (v : val) : val :=
   match fn with
   | 701 => d_cache_trace v
+  | 1701 => KeyProofWire.d_vk_verify v
+  | 1703 => KeyProofWire.d_qspp_verify v
+  | 1704 => KeyProofWire.d_gennaro v
+  | 1710 => KeyProofWire.d_ped_check v
+  | 1711 => KeyProofWire.d_mul_check v
+  | 1712 => KeyProofWire.d_exp_check v
+  | 1713 => KeyProofWire.d_prime_check v
+  | 1714 => KeyProofWire.d_issq_check v
+  | 1715 => KeyProofWire.d_responses v
   | 1601 => d_pair_ok v
   | 1602 => d_can_prove v
   | 1603 => d_find_match v
